@@ -86,6 +86,7 @@ def run(prop, tier, repo, short_patterns=()):
             out["vacuous"].append("hypotheses contradictory at " + o["name"])
         o.pop("smt2")
         o.pop("smt2_rel", None)
+        o.pop("smt2_cone", None)
         out["obligations"].append(o)
     out["trusted"] = sorted(out["trusted"])
     out["inlined"] = sorted(out["inlined"])
